@@ -159,6 +159,9 @@ def canon_impl(r):
     sets = []
     for fs in f["field_sets"]:
         nb = fs["size_bytes"] if fs["size_bytes"] == fs["new_zero_len"] else "%s/%s" % (fs["size_bytes"], fs["new_zero_len"])
+        if fs.get("new") is None or any(x.get("bytes") is None for x in fs["new_as"]):
+            # the constructor body is not a byte array the extractor can read: not "ok with these bytes"
+            return ("ok-unreadable-reset-constructor", fs["name"])
         new_as = tuple(sorted((x["name"], tuple(x["bytes"])) for x in fs["new_as"]))
         sets.append((fs["name"], fs["size_bits"], nb, tuple(fs["new"]), new_as))
     accs = [(m["name"], m["field_set"], m["reset_fn"]) for b in f["blocks"] for m in b["methods"] if m["kind"] == "register"]
@@ -459,6 +462,38 @@ def split_batch(rng, d):
     return out
 
 
+def twin_defs(rng, n):
+    """Same-named registers behind mutually exclusive cfgs (`cfg(all())` holds in every build, `cfg(any())` in none) with
+    DIFFERENT reset values, in both declaration orders: the build gets the reset value of the twin that exists in it.
+    Compiled only (L2); the expectation is the python reading of the property on the definition without the absent twin.
+    (A ref to the pair is only generated when the existing twin comes first: a ref takes the FIRST definition, D23.)"""
+    out = []
+    for i in range(n):
+        size = rng.choice([8, 12, 16, 24, 32, 40, 64])
+        bo = rng.choice(["LE", "BE"])
+        bito = rng.choice([None, "LSB0", "MSB0"])
+        vals = rng.sample(range(1, 1 << min(size, 30)), 2)
+        if rng.random() < 0.3:
+            vals[1] = None                                  # only one twin has a reset value
+            if rng.random() < 0.5:
+                vals.reverse()
+        act_first = i % 2 == 0
+        sfx = "abcdefghijklmnop"[i % 16]
+        mk = lambda v, cfg, addr: adef.mk_register(f"Tw{sfx}", addr, size, [adef.mk_field("va", "uint", 0, min(size, 8), form="excl")],
+                                                   byte_order=bo, bit_order=bito, reset_value=v, cfg=cfg)
+        act, ina = mk(vals[0], "all()", 10), mk(vals[1], "any()", 20)
+        extra = [adef.mk_register(f"Plain{sfx}", 40, 16, [], byte_order=bo, reset_value=rng.randrange(1, 1 << 16))]
+        if act_first:
+            extra.append(adef.mk_ref(f"Twref{sfx}", f"Tw{sfx}", {"kind": "register", "address": 60}))
+            extra.append(adef.mk_ref(f"Twov{sfx}", f"Tw{sfx}", {"kind": "register", "address": 70, "reset_value": rng.randrange(1, 1 << min(size, 30))}))
+        cfg = adef.mk_config(register_address_type="u16")
+        full = {"config": cfg, "objects": ([act, ina] if act_first else [ina, act]) + extra}
+        only = {"config": cfg, "objects": [dict(act, cfg=None)] + extra}
+        out.append({"id": f"tw{i}", "syntax": "dsl", "text": adef.render(full, "dsl"), "adef": only, "model": spec_definition(only),
+                    "cases": [], "kind": "twins"})
+    return out
+
+
 def l2_main(mods):
     """mods: list of (modname, adef).  Driver: write(|_|()) on every register / ref accessor, and the constructor bytes."""
     body = ["use mock::*;", "fn main() {"]
@@ -644,6 +679,7 @@ def run(ctx):
             if d["id"] not in seen:
                 seen.add(d["id"])
                 l2defs.append(d)
+        l2defs += twin_defs(rng, 12 if exhaustive else 6)      # (seed C05-8: reset values keyed by the bare name)
         t0 = time.time()
         l2_count, l2_diffs = run_l2(ctx, exe, l2defs, hist)
         hist["l2_seconds"] = round(time.time() - t0, 1)
